@@ -227,17 +227,21 @@ def build_gen():
         build.run([build.instr_bin(), "-dir", copy, "-mainhook", "-sites", os.path.join(kd, "sites-ygot.json")] + pkgs, cwd=copy)
         gy = os.path.join(copy, "verifgoyang")
         build.run([build.instr_bin(), "-dir", gy, "-prefix", "goyang/", "-sites", os.path.join(kd, "sites-goyang.json"), "./pkg/yang", "./pkg/indent"], cwd=gy)
+        hg = os.path.join(copy, "verifhgen")
+        shutil.copytree(os.path.join(VERIF, "sim", "hgen"), hg)
+        hgenbin = os.path.join(kd, "hgen")
         genbin = os.path.join(kd, "generator")
         protobin = os.path.join(kd, "proto_generator")
         build.run(["go", "build", "-o", genbin, "./generator"], cwd=copy)
         build.run(["go", "build", "-o", protobin, "./proto_generator"], cwd=copy)
+        build.run(["go", "build", "-o", hgenbin, "./verifhgen"], cwd=copy)
         sites = {}
         for f in ("sites-ygot.json", "sites-goyang.json"):
             d = json.load(open(os.path.join(kd, f)))
             for s in d["sites"]:
                 if s["kind"] in ("range", "mapkeys", "maprange"):
                     sites[s["site"]] = s
-        info = {"kind": "gen", "generator": genbin, "proto_generator": protobin, "src": copy, "repo_hash": rh, "dir": kd,
+        info = {"kind": "gen", "generator": genbin, "proto_generator": protobin, "hgen": hgenbin, "src": copy, "repo_hash": rh, "dir": kd,
                 "n_sites": len(sites), "build_s": round(time.time() - t0, 1)}
         json.dump(sites, open(os.path.join(kd, "sites.json"), "w"))
         json.dump(info, open(stamp, "w"))
@@ -339,8 +343,14 @@ def ddmin_sites(info, combo, mode, sites, ref, workdir, budget=40):
     return checks._ddmin(items, differs, b), budget - b[0]
 
 
+# flag sets for which the in-process leg (hgen) has an equivalent library configuration: tool, compress
+INPROC_FLAGSETS = {"compress-rich-simple": ("go", True), "uncompressed-rich": ("go", False), "paths": ("path", True), "proto-hier-compress": ("proto", True),
+                   "proto-flat": ("proto", False)}
+
+
 def run_combo(args):
     info, combo, tier, seed, workroot = args
+    schema, tool, flagset = combo
     t0 = time.time()
     workdir = tempfile.mkdtemp(prefix="c25-", dir=workroot)
     res = {"combo": list(combo), "runs": 0, "violations": [], "sites_multi": [], "fired": {}, "skipped": None, "orders": []}
@@ -385,6 +395,27 @@ def run_combo(args):
                 res["runs"] += used
             res["violations"].append(v)
             break
+        if not res["violations"] and flagset in INPROC_FLAGSETS:
+            tool2, compress = INPROC_FLAGSETS[flagset]
+            files, paths = combo_files(info, schema, workdir)
+            env = dict(os.environ)
+            env.pop("VERIF_MAP", None)
+            env.pop("VERIF_SITES", None)
+            p = subprocess.run([info["hgen"], "-tool", tool2, "-compress=%s" % ("true" if compress else "false"), "-path", ",".join(paths),
+                                "-seed", str(r.randrange(1, 1 << 40))] + files, cwd=workdir, env=env, stdout=subprocess.PIPE, stderr=subprocess.PIPE, text=True, timeout=900)
+            res["runs"] += 3
+            try:
+                d = json.loads(p.stdout.strip().splitlines()[-1])
+            except (ValueError, IndexError):
+                d = {"skipped": "hgen produced no result: " + (p.stderr or "")[-300:]}
+            if "skipped" not in d:
+                res["fired"]["same-process-regeneration"] = res["fired"].get("same-process-regeneration", 0) + 2
+                if not d.get("second_run_same"):
+                    res["violations"].append({"combo": list(combo), "map": "canon", "sites": None, "rc": 0, "file": "(in-process, %s)" % tool2, "inproc": True,
+                                              "detail": "generating twice in one process with the same map order gives different output: " + str(d.get("second_run_diff") or d.get("second_run_error"))})
+                elif not d.get("random_order_run_same"):
+                    res["violations"].append({"combo": list(combo), "map": "rand-inproc", "sites": None, "rc": 0, "file": "(in-process, %s)" % tool2, "inproc": True,
+                                              "detail": "a third in-process generation under a seeded random map order differs: " + str(d.get("random_run_diff") or d.get("random_run_error"))})
         res["wall_s"] = round(time.time() - t0, 2)
         return res
     finally:
@@ -439,13 +470,15 @@ def check(pid, tier, seed):
     for v in viols:
         key_sites = v.get("minimal_sites") or v.get("sites") or []
         sig = "C25:" + v["combo"][1] + ":" + ("+".join(key_sites) if key_sites else ("native-order" if v["map"] == "pass" else "unminimised"))
+        if v.get("inproc"):
+            sig = "C25:" + v["combo"][1] + ":same-process:" + ("second-run" if v["map"] == "canon" else "random-order")
         v["signature"] = sig
         if sig not in by_sig:
             by_sig[sig] = v
     for sig, v in sorted(by_sig.items()):
         safe = "".join(ch if ch.isalnum() else "_" for ch in sig)[:70]
         path = os.path.join(VERIF, "replays", "C25-%s.json" % safe)
-        case = {"property": "C25", "combo": v["combo"], "map": v["map"], "sites": v.get("minimal_sites") or v.get("sites")}
+        case = {"property": "C25", "combo": v["combo"], "map": v["map"], "sites": v.get("minimal_sites") or v.get("sites"), "inproc": bool(v.get("inproc"))}
         json.dump({"property": "C25", "seed": seed, "violation": {"property": "C25", "oracle": "output-differs", "signature": sig,
                                                                    "msg": "output file %s differs from the canonical-order reference: %s" % (v["file"], v["detail"])},
                    "case": case, "repo_hash": info["repo_hash"], "how_to_replay": "./verifctl replay %s" % os.path.relpath(path, VERIF)}, open(path, "w"), indent=1)
@@ -493,6 +526,18 @@ def replay(path, doc):
     combo = tuple(case["combo"])
     workdir = tempfile.mkdtemp(prefix="verif-c25r-", dir=build.SCRATCH)
     try:
+        if case.get("inproc"):
+            tool2, compress = INPROC_FLAGSETS[combo[2]]
+            files, paths = combo_files(info, combo[0], workdir)
+            p = subprocess.run([info["hgen"], "-tool", tool2, "-compress=%s" % ("true" if compress else "false"), "-path", ",".join(paths), "-seed", "12345"] + files,
+                               cwd=workdir, stdout=subprocess.PIPE, stderr=subprocess.PIPE, text=True, timeout=900)
+            print(p.stdout[-3000:])
+            d = json.loads(p.stdout.strip().splitlines()[-1])
+            if d.get("second_run_same") and d.get("random_order_run_same"):
+                print("replay: three generations in one process agree (no violation)")
+                return 0
+            print("VIOLATION property=C25 replay=%s" % path)
+            return 1
         refdir = os.path.join(workdir, "ref")
         rc, ref, _, err = generate(info, combo, "canon", None, refdir, workdir)
         if rc != 0:
